@@ -96,6 +96,10 @@ type DB struct {
 	Log           func(sess int, sql string)
 	FaultHook     func(sess *Session, sql string) error
 	CommitHook    func(sess *Session) error
+	// TxHook observes the boundaries of explicit top-level transactions: kind = begin | commit | commit_fail | rollback
+	// (savepoints are not boundaries). StmtHook observes every non-transaction-control statement after it ran.
+	TxHook        func(sess *Session, kind string)
+	StmtHook      func(sess *Session, sql string, res *Result, err error)
 	sessions      int
 	Stats         map[string]int
 }
@@ -213,6 +217,15 @@ func (db *DB) NewSession() *Session {
 }
 
 func (s *Session) InTx() bool { return s.tx != nil && s.tx.explicit }
+
+func (s *Session) txHook(kind string) {
+	if s.db.TxHook != nil {
+		s.db.TxHook(s, kind)
+	}
+}
+
+// CommitSeq is the number of transactions committed so far (implicit single-statement ones included).
+func (db *DB) CommitSeq() uint64 { return db.commitSeq }
 
 func (s *Session) begin(explicit bool) {
 	xid := s.db.nextXid
@@ -403,6 +416,9 @@ func (s *Session) execOne(st Stmt, sql string) (res *Result, err error) {
 	if t, ok := st.(*TxStmt); ok {
 		return s.execTx(t)
 	}
+	if db.StmtHook != nil {
+		defer func() { db.StmtHook(s, sql, res, err) }()
+	}
 	if s.tx != nil && s.tx.failed {
 		return nil, errf("25P02", "current transaction is aborted, commands ignored until end of transaction block")
 	}
@@ -465,6 +481,7 @@ func (s *Session) execTx(t *TxStmt) (*Result, error) {
 			return &Result{Tag: "BEGIN"}, nil
 		}
 		s.begin(true)
+		s.txHook("begin")
 		return &Result{Tag: "BEGIN"}, nil
 	case "commit":
 		if s.tx == nil {
@@ -472,18 +489,25 @@ func (s *Session) execTx(t *TxStmt) (*Result, error) {
 		}
 		if s.tx.failed {
 			s.finish(false)
+			s.txHook("commit_fail")
 			return &Result{Tag: "ROLLBACK"}, errf("25P02", "commit unexpectedly resulted in rollback")
 		}
 		if s.db.CommitHook != nil {
 			if err := s.db.CommitHook(s); err != nil {
 				s.finish(false)
+				s.txHook("commit_fail")
 				return nil, err
 			}
 		}
 		s.finish(true)
+		s.txHook("commit")
 		return &Result{Tag: "COMMIT"}, nil
 	case "rollback":
+		had := s.tx != nil && s.tx.explicit
 		s.finish(false)
+		if had {
+			s.txHook("rollback")
+		}
 		return &Result{Tag: "ROLLBACK"}, nil
 	case "savepoint":
 		if s.tx == nil {
